@@ -25,8 +25,9 @@ type Ctx struct {
 
 	// NeedClient: the document will be generated with --client, so rows goag rejects
 	// only under --client are outside this family's dialect too.
-	Lean       bool // ResponsesDoc: no schema / header / request body components at all
-	NeedClient bool
+	Lean         bool // ResponsesDoc: no schema / header / request body components at all
+	MayBeRefused bool // the spec breaks a restriction goag documents: refusing it is fine
+	NeedClient   bool
 
 	// LowerCompNames: also draw component keys that start with a lower-case letter
 	LowerCompNames bool
